@@ -283,9 +283,9 @@ impl<'a> Instance<'a> {
                 self.host.trace.push(Ev::Choose(v));
                 Ok(vec![Val::I32(v)])
             }
-            ("helper", [Val::I32(a), Val::I32(b)]) => {
-                // same observable behaviour as the built body `progen::helper_body`
-                let m = crate::progen::HELPER_MAGIC;
+            ("helper" | "helper2", [Val::I32(a), Val::I32(b)]) => {
+                // same observable behaviour as the built body `progen::helper_body` / the program's `helper2`
+                let m = if name == "helper" { crate::progen::HELPER_MAGIC } else { crate::progen::HELPER2_MAGIC };
                 self.host.trace.push(Ev::Enter(m));
                 self.host.trace.push(Ev::Leave(m, LeaveHow::Normal));
                 Ok(vec![Val::I32(a.wrapping_mul(3).wrapping_add(*b))])
